@@ -5,8 +5,12 @@ CONSTANTS
   Fams = {2, 3, 6}
   AllowDeps = TRUE
   D = 1
-INVARIANT InvWellFormed
+  Ste = "identity"
+  TVals = {0}
+  KFull = 1
+  KMax = 1
 INVARIANT InvCvIsCost
+INVARIANT InvWellFormed
 INVARIANT InvNonNeg
 PROPERTY StepMonotone
 PROPERTY StepStrict
@@ -16,3 +20,7 @@ INVARIANT InvOpenIsOriginal
 INVARIANT InvDiscOpen
 INVARIANT InvDiscIntegral
 INVARIANT InvDiscBounded
+INVARIANT InvDiscSteSupport
+INVARIANT InvDiscSteKaZero
+INVARIANT InvSizeChangeRaisesCost
+INVARIANT InvDiscRelevant
